@@ -15,7 +15,7 @@ import (
 
 func init() {
 	Register(&Scenario{Prop: "C10", Name: "rejected-do-not-block", Run: scenC10, SoftParks: true, Weight: 1,
-		Rule: "honest writer W, receiver R (ReplicationConcurrency in {1,2,32}) and an adversary; W writes 1-3 entries that R replicates, then 1-4 more while R is cut off (their announcements are lost); after the heal, before any honest exchange, the adversary announces to R 1-3 messages whose head lists mix copies of W's valid current heads with 1-3 rejected heads drawn from {non-writer author, writer's identity block with a foreign signature, the same naming a predecessor nobody holds, (a third of the runs: the adversary is a listed writer) a valid entry of the adversary on top of such a forged entry, entry of another database written by W, valid entry with a wrong claimed hash} at every position (permutation drawn per run), block fetches complete in a drawn order; then W's valid heads are announced again by an honest message (topic announcement, head exchange after the pollers notice the heal, or manual Sync, drawn per run); oracle: at rest R holds every entry W wrote; non-trivial = at least one mixed message (valid and rejected heads together) was processed and R lacked >=1 valid entry before it"})
+		Rule: "honest writer W, receiver R (ReplicationConcurrency in {1,2,32}) and an adversary; W writes 1-3 entries that R replicates (in a quarter of the runs none: R has never checked an entry of W's), then 1-4 more while R is cut off (their announcements are lost); after the heal, before any honest exchange, the adversary announces to R 1-3 messages whose head lists mix copies of W's valid current heads with 1-3 rejected heads drawn from {non-writer author, writer's identity block with a foreign signature, the same keyed with the forger's key, the same naming a predecessor nobody holds, (a third of the runs: the adversary is a listed writer) a valid entry of the adversary on top of such a forged entry, entry of another database written by W, valid entry with a wrong claimed hash} at every position (permutation drawn per run), block fetches complete in a drawn order; then W's valid heads are announced again by an honest message (topic announcement, head exchange after the pollers notice the heal, or manual Sync, drawn per run); oracle: at rest R holds every entry W wrote; non-trivial = at least one mixed message (valid and rejected heads together) was processed and R lacked >=1 valid entry before it"})
 }
 
 func scenC10(k *K) {
@@ -59,9 +59,15 @@ func scenC10(k *K) {
 			}
 		}
 	}
-	for i, m := 0, k.C.Range(1, 3); i < m; i++ {
-		c.RandomWrite(0)
-		k.Steps(k.C.Intn(8))
+	// in a quarter of the runs R has seen nothing of W's yet when the hostile announcements
+	// come: the first entry under W's identity that it ever checks may be a forged one
+	if k.C.Chance(3, 4) {
+		for i, m := 0, k.C.Range(1, 3); i < m; i++ {
+			c.RandomWrite(0)
+			k.Steps(k.C.Intn(8))
+		}
+	} else {
+		k.W.Stat("receiver-knows-nothing-of-the-writer-yet")
 	}
 	k.Settle(60*time.Second, 2500, c.AllIdle)
 	adv.Engage(c.Peers[1], R)
@@ -120,6 +126,14 @@ func scenC10(k *K) {
 				return nil
 			}
 			return e
+		case "forged-block-and-key":
+			// the writer's identity block, the entry keyed and signed by the forger
+			ident, priv := adv.ForgedIdentity("block-and-key", W.Identity())
+			e, err := adv.Craft("block-and-key", ident, priv, c.Addr, mkPayload(fmt.Sprintf("bad-%d", n)), next, maxT+1)
+			if err != nil {
+				return nil
+			}
+			return e
 		case "forged-dangling":
 			// a forged head (the writer's identity block, a payload the writer never signed)
 			// whose predecessor is a block nobody holds: whoever fetches it waits for good
@@ -170,7 +184,7 @@ func scenC10(k *K) {
 		}
 		return nil
 	}
-	kinds := []string{"nonwriter", "forged-block", "foreign-db", "wrong-hash", "forged-dangling"}
+	kinds := []string{"nonwriter", "forged-block", "foreign-db", "wrong-hash", "forged-dangling", "forged-block-and-key"}
 	if collude {
 		kinds = append(kinds, "forged-ancestor", "forged-ancestor")
 	}
